@@ -35,6 +35,7 @@ import XdslModel.RiscVValidate
 import XdslModel.IRWF
 import XdslModel.Skeleton
 import XdslModel.LowerAffine
+import XdslModel.Excluded
 /-!
 Model registry for the driver: `MODEL <name>` selects a `(state, lineStep)` pair.
 A continuation-passing encoding is used because the state types differ.
@@ -85,6 +86,7 @@ def run? (name : String) : Option Runner :=
   | "register_stack" => some fun k =>
       k RegAlloc.stackLineStep ({ z := false, allowInf := false, infBase := 1000 }, [{}])
   | "lower_affine" => some fun k => k LowerAffine.lineStep ()
+  | "excluded_walk" => some fun k => k RegAlloc.walkLineStep ()
   | _ => none
 
 end Xdsl.Registry
